@@ -18,6 +18,12 @@ EXTENDS Naturals, FiniteSets, Sequences
 CONSTANTS Contracts       \* names of the configurable contract addresses
 
 Sources == {"unset", "file", "flag"}
+\* an explicit contract address may be syntactically wrong (e.g. a digit missing): it is still
+\* the user's explicit value and must be kept verbatim (the chain layer rejects it later);
+\* explicit peers may be a single entry
+ContractSources == Sources \cup {"fileMalformed"}
+PeerSources     == Sources \cup {"fileSingle"}
+Explicit(src)   == src # "unset"
 
 VARIABLES
     testnetFlag, developerFlag,   \* the network selection flags
@@ -42,12 +48,13 @@ Resolve(t, d, ps, es, cs) ==
                    ELSE IF n = "developer" THEN "none" ELSE "default:" \o n,
       electrum |-> IF es # "unset" THEN "explicit"
                    ELSE IF BitcoinOf(n) = "regtest" THEN "none" ELSE "default:" \o BitcoinOf(n),
-      contracts |-> [c \in Contracts |-> IF cs[c] # "unset" THEN "explicit" ELSE "default"] ]
+      contracts |-> [c \in Contracts |-> IF cs[c] = "fileMalformed" THEN "explicit-malformed"
+                                         ELSE IF cs[c] # "unset" THEN "explicit" ELSE "default"] ]
 
 Init ==
     /\ testnetFlag \in BOOLEAN /\ developerFlag \in BOOLEAN
-    /\ peersSrc \in Sources /\ electrumSrc \in Sources
-    /\ contractSrc \in [Contracts -> Sources]
+    /\ peersSrc \in PeerSources /\ electrumSrc \in Sources
+    /\ contractSrc \in [Contracts -> ContractSources]
     /\ resolved = [network |-> "pending"] /\ done = FALSE
 
 Read ==
@@ -65,7 +72,7 @@ Done == done
 ExplicitKept ==
     Done => /\ (peersSrc # "unset" => resolved.peers = "explicit")
             /\ (electrumSrc # "unset" => resolved.electrum = "explicit")
-            /\ \A c \in Contracts : contractSrc[c] # "unset" => resolved.contracts[c] = "explicit"
+            /\ \A c \in Contracts : contractSrc[c] # "unset" => resolved.contracts[c] \in {"explicit", "explicit-malformed"}
 
 \* C44: defaults only fill unset values, and they are those of the selected network
 DefaultsOnlyForUnset ==
